@@ -12,12 +12,19 @@
             Named regression "LowercasedNameLookup" (LowerBeforeLookup = TRUE): for ProtoMajor >= 2 the
             name is lowercased for display BEFORE the lookup, which then never matches
             (DumpReq_lowerlookup.cfg must violate DumpRedacts).
-   Layer 2 (statement): no value of a credential header occurs in the dump - whatever the protocol. *)
+            Named regression "FirstValueGuard" (GuardOnFirstValue = TRUE): a field is redacted only if
+            its FIRST value (Header.Get) is non-empty; `Authorization:` followed by
+            `Authorization: Bearer secret` is then printed verbatim (DumpReq_firstvalue.cfg must violate).
+   A field may occur several times; a value is a secret (marker), empty, or whitespace only (which the
+   HTTP/1.x reader trims to empty).
+   Layer 2 (statement): no value of a credential header occurs in the dump - whatever the protocol,
+   however many values the field has and whatever stands in front of the secret.                 *)
 EXTENDS VerifCommon
 
 CONSTANTS MaxHeaders,
           Protos,               \* protocol versions of the requests (subset of DOMAIN ProtoMajor)
-          LowerBeforeLookup
+          LowerBeforeLookup,
+          GuardOnFirstValue
 
 ProtoMajor == ("HTTP/1.0" :> 1) @@ ("HTTP/1.1" :> 1) @@ ("HTTP/2.0" :> 2) @@ ("HTTP/3.0" :> 3)
 ASSUME Protos \subseteq DOMAIN ProtoMajor
@@ -45,18 +52,32 @@ Canon(sp) == CHOOSE c \in DOMAIN Spellings : sp \in Spellings[c]
 AllSpellings == UNION {Spellings[c] : c \in DOMAIN Spellings}
 
 \* a header line: spelling + value marker (the position in the request makes the value unique: "v<k>")
-Line(sp, k) == [name |-> sp, value |-> k]
+\* + what the value is: "s" a secret/marker, "e" empty, "w" whitespace only
+LineK(sp, k, kind) == [name |-> sp, value |-> k, kind |-> kind]
+Line(sp, k) == LineK(sp, k, "s")
+
+\* value-list shapes of one field (every line the same name): one value, two, three, and an empty or
+\* whitespace-only value before / after / between the secrets
+ValueShapes == {<<"s">>, <<"s", "s">>, <<"e", "s">>, <<"s", "e">>, <<"w", "s">>, <<"s", "s", "s">>,
+                <<"e", "e", "s">>, <<"e", "s", "s">>, <<"s", "e", "s">>, <<"w", "e", "s">>}
 
 \* layer 1
 \* the key with which requestHeadersToRedact is consulted; "lower:<name>" stands for the lowercased name,
 \* which is no key of the (canonical-case) list unless the canonical name is itself lowercase (none is)
 LookupKey(l, pr) == IF LowerBeforeLookup /\ ProtoMajor[pr] >= 2 THEN "lower:" \o Canon(l.name) ELSE Canon(l.name)
-DumpLine(l, pr) == [name |-> Canon(l.name), shown |-> IF LookupKey(l, pr) \in RedactList THEN 0 ELSE l.value]   \* 0 = "<redacted>"
-Dump(req, pr) == [i \in 1..Len(req) |-> DumpLine(req[i], pr)]
+\* the first value of the field a line belongs to (Header.Get), for the regression FirstValueGuard
+FirstKind(req, i) == LET j == CHOOSE j \in 1..Len(req) : /\ Canon(req[j].name) = Canon(req[i].name)
+                                                         /\ \A m \in 1..(j - 1) : Canon(req[m].name) # Canon(req[i].name)
+                     IN req[j].kind
+Redacts(req, i, pr) == /\ LookupKey(req[i], pr) \in RedactList
+                       /\ (GuardOnFirstValue => FirstKind(req, i) = "s")
+DumpLine(req, i, pr) == [name |-> Canon(req[i].name),
+                         shown |-> IF Redacts(req, i, pr) THEN 0 ELSE IF req[i].kind = "s" THEN req[i].value ELSE -1]   \* 0 = "<redacted>", -1 = nothing secret
+Dump(req, pr) == [i \in 1..Len(req) |-> DumpLine(req, i, pr)]
 
 \* layer 2
 NoCredentialValue(req, dump) ==
-    \A i \in 1..Len(req) : Canon(req[i].name) \in CredentialHeaders =>
+    \A i \in 1..Len(req) : (Canon(req[i].name) \in CredentialHeaders /\ req[i].kind = "s") =>
         \A j \in 1..Len(dump) : dump[j].shown # req[i].value
 
 VARIABLES req, proto, done
@@ -64,12 +85,18 @@ vars == <<req, proto, done>>
 Init == req = <<>> /\ proto \in Protos /\ done = FALSE
 Add(sp) == ~done /\ Len(req) < MaxHeaders /\ req' = Append(req, Line(sp, Len(req) + 1)) /\ UNCHANGED <<proto, done>>
 Send == ~done /\ req # <<>> /\ done' = TRUE /\ UNCHANGED <<req, proto>>
-Next == Send \/ \E sp \in AllSpellings : Add(sp)
+\* a credential field with a list of values of some shape (same spelling on every line)
+Shaped(c, sp, sh) == /\ ~done /\ req = <<>>
+                     /\ req' = [i \in 1..Len(sh) |-> LineK(sp, i, sh[i])]
+                     /\ UNCHANGED <<proto, done>>
+Next == \/ Send
+        \/ \E sp \in AllSpellings : Add(sp)
+        \/ \E c \in CredentialHeaders : \E sp \in Spellings[c] : \E sh \in ValueShapes : Shaped(c, sp, sh)
 Spec == Init /\ [][Next]_vars
 
 DumpRedacts == done => NoCredentialValue(req, Dump(req, proto))
 EmitCases == done => Emit("HDRCASE", [proto |-> proto, major |-> ProtoMajor[proto], headers |-> [i \in 1..Len(req) |->
-                         [name |-> req[i].name, canon |-> Canon(req[i].name), value |-> req[i].value,
+                         [name |-> req[i].name, canon |-> Canon(req[i].name), value |-> req[i].value, kind |-> req[i].kind,
                           credential |-> Canon(req[i].name) \in CredentialHeaders]]])
 
 \* observed: one header line of one real request and the real dump of that request
